@@ -104,6 +104,10 @@ def extract(configs, repo=REPO, log=None):
     build_driver()
     th = tree_hash(repo)
     base = os.path.join(CACHE, "facts", th)
+    try:
+        os.utime(base, None)          # LRU: mark this tree's fact set as in use
+    except OSError:
+        pass
     # RSAV_TARGET_DIR: tools that analyse many scratch copies in parallel give each worker its own cargo target
     # directory (cargo serialises builds that share one)
     target_dir = os.environ.get("RSAV_TARGET_DIR") or os.path.join(CACHE, "target")
@@ -137,16 +141,16 @@ def extract(configs, repo=REPO, log=None):
 
 
 def _gc(keep):
-    """Keep the cache small: drop fact sets of older tree hashes (keep the 6 newest and anything younger than 15 min)."""
+    """Keep the cache small: drop fact sets of tree hashes not used recently (keep the 16 most recently used and anything used in the last hour)."""
     root = os.path.join(CACHE, "facts")
     try:
         ds = sorted((os.path.getmtime(os.path.join(root, d)), d) for d in os.listdir(root))
     except OSError:
         return
     now = time.time()
-    for mt, d in ds[:-6]:
+    for mt, d in ds[:-16]:
         p = os.path.join(root, d)
-        if p != keep and now - mt > 900:     # never remove what a concurrent run may be using
+        if p != keep and now - mt > 3600:     # never remove what a concurrent run may be using (mtime = last use)
             shutil.rmtree(p, ignore_errors=True)
 
 
